@@ -15,7 +15,8 @@ class C02(rowgen.RowGenProp):
                 "Wheatley.C02.stedman_course", "Wheatley.C02.builtin_lead_lengths",
                 "Wheatley.C02.plain_bob_minor",
                 "Wheatley.C02.notation_round_trip",
-                "Wheatley.C02.generator_rings_the_notation"]
+                "Wheatley.C02.generator_rings_the_notation",
+                "Wheatley.C02.permute_is_the_change", "Wheatley.C02.plain_rows_denoted"]
     level_text = ("theorems: row k = start row transformed by the first k changes read cyclically from the start "
                   "index (unbounded k, any notation/stage/start index); course lengths of the built-in methods on "
                   "every supported stage (finite tables by decide +kernel). correspondence: notation strings "
@@ -72,6 +73,9 @@ class C02(rowgen.RowGenProp):
                                      else [rng.randint(1, stage) for _ in range(k)], 0])
                 blocks.append({"pre": rng.choice(["", "", "&", "+"]), "toks": toks})
             yield {"k": "roundtrip", "blocks": blocks}
+        # the statement of `permute_is_the_change` against the real permute: every place set to stage 8 (10),
+        # sampled above; the driver evaluates `Spec.apply` and the hypothesis `Consistent`
+        yield from rowgen.permute_cases(rng, tier, 8 if tier == "quick" else 10, 60)
         # through the Bot: every start of the method in a session (first Go, a second Go after That's all /
         # Rounds) rings the notation's rows from the start index
         yield from _c05.PROP.world_cases(rng, 25 if tier == "quick" else 250)
@@ -112,6 +116,14 @@ class C02(rowgen.RowGenProp):
             return None
         if req["k"] == "world":
             return _c05.PROP.oracle_world(req, reply)
+        if req["k"] == "permute":
+            stage, places, row = req["stage"], req["places"], req["row"]
+            if "row" in reply and places == sorted(set(places)) and len(row) >= stage \
+                    and gens.ref_well_formed(stage, places):
+                want = gens.ref_apply(stage, places, row)
+                if reply["row"] != want:
+                    return f"permute({row}, {places}) on {stage} = {reply['row']}, the change denotes {want}"
+            return None
         if req["k"] != "gen" or "err" in reply:
             return None
         spec = req["gen"]
